@@ -66,9 +66,28 @@ func GeomLine(t *tor.Torrent) string {
 		}
 		fs = strings.Join(l, ";")
 	}
-	return fmt.Sprintf("ok name=%s pl=%d len=%d nif=%d np=%d nh=%d files=%s", vhlib.Hex([]byte(t.Name)),
-		t.Pieces.PieceSize(), t.Pieces.Length(), len(t.VerifInFlight()), t.Pieces.Num(),
-		len(t.PieceHashes), fs)
+	// the geometry as seen THROUGH the piece store
+	np := t.Pieces.Num()
+	sat := func(i int) uint32 {
+		if i < 0 {
+			return 0
+		}
+		return uint32(i)
+	}
+	sums := "-"
+	if np <= 20000 {
+		var spl, sblk int64
+		for i := 0; i < np; i++ {
+			spl += int64(t.Pieces.PieceLength(uint32(i)))
+			n, _ := t.Pieces.PieceBitmap(uint32(i))
+			sblk += int64(n)
+		}
+		sums = fmt.Sprintf("%d/%d", spl, sblk)
+	}
+	return fmt.Sprintf("ok name=%s pl=%d len=%d nif=%d np=%d nh=%d files=%s pls=%d,%d,%d,%d sums=%s", vhlib.Hex([]byte(t.Name)),
+		t.Pieces.PieceSize(), t.Pieces.Length(), len(t.VerifInFlight()), np,
+		len(t.PieceHashes), fs, t.Pieces.PieceLength(0), t.Pieces.PieceLength(sat(np-2)),
+		t.Pieces.PieceLength(sat(np-1)), t.Pieces.PieceLength(uint32(np)), sums)
 }
 
 // ErrTag maps MetadataComplete's errors to the model's tags ("" = not one of them, i.e.
